@@ -344,6 +344,16 @@ func runC03(r *core.Run) {
 				}
 			})
 	}
+	// the XHTML / HardWraps switches handed over through every other channel the API offers (node renderer constructor,
+	// late AddOptions, split calls, one call per option): the XML clause must hold however XHTML was switched on
+	for _, via := range []int{1, 2, 3, 7} {
+		cn := fmt.Sprintf("all+attr+autoid+xhtml+hardwraps+via=%d", via)
+		if via == 1 {
+			// options given to html.NewRenderer configure that node renderer only, not the extensions' renderers
+			cn = "core+attr+autoid+xhtml+hardwraps+via=1"
+		}
+		corpusSub(r, "option-channels/"+cn, core.MustCfg(cn), nil, func(s *core.Sub, cv *core.Conv, w []byte) { c03Case(s, cv, w, "option-channels") })
+	}
 	// long payloads of every length in every sink (buffers, chunked escaping, multi-byte sequences at chunk borders)
 	lengthSub(r, "lengths/all+attr+autoid+xhtml", core.MustCfg("all+attr+autoid+xhtml"), core.Pick(r, 600, 2200), func(s *core.Sub, cv *core.Conv, w []byte) { c03Case(s, cv, w, "lengths") })
 	// every byte value in every sink
